@@ -134,9 +134,11 @@ Fixpoint bin_nodes (e : expr) {struct e} : list expr :=
 Definition class_row (labels : list string) (n : expr) : list bool :=
   match n with
   | EBin op rb vm l r =>
-      [k1_class n; k2_class n; k6_class n; k7_op l; k7_op r]
+      [k1_class n; k2_class n; k6_class n; k7_op l; k7_op r;
+       (* proved-fragment predicates *)
+       plain_match vm && const_ok l && const_ok r; k7_free_vec l; k7_free_vec r]
       ++ match vm with
-         | Some vm => map (k3_mech vm (many_side vm l r)) labels
+         | Some vm => k3_free (many_side vm l r) :: map (k3_mech vm (many_side vm l r)) labels
          | None => []
          end
   | _ => []
